@@ -240,11 +240,11 @@ func rleLens(r *Rng, all []int, mode int) []clSym {
 		use := mode == 1 || (mode == 2 && r.Bool()) || mode == 3
 		if mode == 3 && v == 0 && run >= 4 && r.Intn(3) != 0 {
 			// legal but unusual: part of a zero run as 0 / 17 / 18, then "repeat previous" (16) on a zero
+			rep := r.Range(3, min2(6, run-1))
 			k := run
-			if k > 6+138 {
-				k = 6 + 138
+			if k > 138+rep {
+				k = 138 + rep // symbol 18 covers at most 138 zeros
 			}
-			rep := r.Range(3, min2(6, k-1))
 			head := k - rep
 			switch {
 			case head >= 11:
